@@ -9,7 +9,9 @@ if "--tier" in args:
     tier = args[args.index("--tier") + 1]
     del args[args.index("--tier"):args.index("--tier") + 2]
 flt = args[0] if args else ""
-res = {}
+resf = os.path.join(ROOT, "seeded", "results_%s.json" % tier)
+res = json.load(open(resf)) if os.path.exists(resf) else {}
+env = dict(os.environ, VERIF_EVIDENCE_DIR=os.path.join(ROOT, "work", "seeded-evidence"))
 for name in sorted(os.listdir(os.path.join(ROOT, "seeded"))):
     d = os.path.join(ROOT, "seeded", name)
     if not os.path.isdir(d) or flt not in name:
@@ -20,13 +22,14 @@ for name in sorted(os.listdir(os.path.join(ROOT, "seeded"))):
     if ap.returncode != 0:
         res[name] = {"error": "patch does not apply: " + ap.stderr[:200]}
         continue
+    res[name] = {}
     try:
         for pid in meta["checks_to_run"]:
             t0 = time.time()
-            r = subprocess.run([os.path.join(ROOT, "check"), pid, "--tier", tier], cwd=ROOT, capture_output=True, text=True)
+            r = subprocess.run([os.path.join(ROOT, "check"), pid, "--tier", tier], cwd=ROOT, capture_output=True, text=True, env=env)
             lines = [l for l in r.stdout.split("\n") if l.startswith(("VIOLATION", "KNOWN", "UNCONFIRMED", "REDUCED", "CHECK-BROKEN", "property="))]
             res.setdefault(name, {})[pid] = {"exit": r.returncode, "caught": r.returncode == 1 and any(l.startswith("VIOLATION") for l in lines), "wall_s": round(time.time() - t0), "lines": lines[:8]}
             print(name, pid, "exit", r.returncode, "CAUGHT" if res[name][pid]["caught"] else "missed", flush=True)
     finally:
         subprocess.run(["git", "-C", "/repo", "checkout", "--", "."], check=True)
-json.dump(res, open(os.path.join(ROOT, "seeded", "results_%s.json" % tier), "w"), indent=1)
+json.dump(res, open(resf, "w"), indent=1, sort_keys=True)
